@@ -19,7 +19,7 @@ func init() {
 		Assumptions: []string{"deep snapshots (types, nil vs empty, map contents, pointer graph) are what a reader can observe of a value"},
 		Real:        []string{"github.com/veraison/go-cose decoders and encoders", "github.com/fxamacker/cbor/v2"},
 		Stubs:       []string{"server loop reusing destinations and buffers", "wire traffic with fault injection", "foreign peer (reference model)", "entropy source"},
-		QuickRuns:   5000, ThoroughRuns: 200000,
+		QuickRuns:   100000, ThoroughRuns: 2000000,
 	}
 }
 
